@@ -403,7 +403,12 @@ func (u *Unit) assumeWF(p *Path, t *Term, T types.Type) {
 	}
 	enc := u.v.enc
 	alloc := p.st.Get(u.cx, "alloc")
-	switch T.Underlying().(type) {
+	switch ut := T.Underlying().(type) {
+	case *types.Interface:
+		// references held in interface values (io.Writer, ...) are allocated too
+		if t.Sort == SInt && ut.NumMethods() > 0 && !types.Identical(T, errType) {
+			p.assume(And(Ge(t, IntLit(0)), Le(t, alloc)))
+		}
 	case *types.Pointer, *types.Map:
 		p.assume(And(Ge(t, IntLit(0)), Le(t, alloc)))
 	case *types.Slice:
@@ -483,6 +488,10 @@ func (u *Unit) freshRef(p *Path, hint string) *Term {
 	r := u.cx.Fresh(hint, SInt)
 	p.assume(Eq(r, Add(alloc, IntLit(1))))
 	p.st.comps["alloc"] = r
+	if u.cx.freshRefs == nil {
+		u.cx.freshRefs = map[string]bool{}
+	}
+	u.cx.freshRefs[r.String()] = true
 	p.knownNN[r.String()] = true
 	p.assume(Gt(r, IntLit(0)))
 	return r
